@@ -543,6 +543,7 @@ func c06Eye(k *fw.K, n int) {
 
 func c06Slice(k *fw.K, shape []int, index []ref.Range) {
 	x := Shuffled(k.Rng, Unique(k.Rng, shape, 0.1, 3))
+	plantSpecials(k, x)
 	in := ref.Instr{Op: "slice", Index: index}
 	k.Case = fcase{In: in, Ops: []*ref.T{x}}
 	if len(x.Data) >= 2 {
@@ -561,6 +562,7 @@ func c06Slice(k *fw.K, shape []int, index []ref.Range) {
 func c06Patch(k *fw.K, dst, src []int, index []ref.Range) {
 	t := Shuffled(k.Rng, Unique(k.Rng, dst, 0.1, 3))
 	s := Shuffled(k.Rng, Unique(k.Rng, src, 10, 13))
+	plantSpecials(k, t, s)
 	in := ref.Instr{Op: "patch", Index: index}
 	k.Case = fcase{In: in, Ops: []*ref.T{t, s}}
 	if len(t.Data) >= 2 {
@@ -599,6 +601,22 @@ func c06Patch(k *fw.K, dst, src []int, index []ref.Range) {
 	}
 }
 
+// plantSpecials: the operations of this property move elements without looking at them ("element values arbitrary"): in one case in
+// four some elements are NaN, infinities, negative zero or at the ends of the range.
+func plantSpecials(k *fw.K, ts ...*ref.T) {
+	if k.Rng.Intn(4) != 0 {
+		return
+	}
+	for _, t := range ts {
+		for i := range t.Data {
+			if k.Rng.Intn(3) == 0 {
+				t.Data[i] = []float64{math.NaN(), math.Inf(1), math.Inf(-1), math.Copysign(0, -1), 5e-324, -1.7e308}[k.Rng.Intn(6)]
+			}
+		}
+	}
+	k.Count("cases_with_non_finite_and_extreme_element_values", 1)
+}
+
 func c06Concat(k *fw.K, base []int, dim, nops int) {
 	xs := make([]*ref.T, nops)
 	sizes := k.Rng.Perm(4)
@@ -610,6 +628,7 @@ func c06Concat(k *fw.K, base []int, dim, nops int) {
 		}
 		xs[i] = Shuffled(k.Rng, Unique(k.Rng, s, float64(10*i)+0.1, float64(10*i)+3))
 	}
+	plantSpecials(k, xs...)
 	in := ref.Instr{Op: "concat", Dim: dim}
 	k.Case = fcase{In: in, Ops: xs}
 	key := fmt.Sprintf("concat/%d/", dim)
